@@ -348,13 +348,48 @@ def check_proofs(prop_id, extra_files=(), deep=False):
     if not ok:
         info.update(ok=False, detail="make failed: " + out[-1500:])
         return info
-    # re-run the leaf files to capture Print Assumptions
+    # re-run the leaf files to capture Print Assumptions (the captured output is reused as long as no .v file of
+    # the development has changed: the key is a digest of every source file, the .vo files were just brought up
+    # to date by make)
     wd = os.path.join(WORK, prop_id)
     os.makedirs(wd, exist_ok=True)
+    h = hashlib.sha1()
+    for dp, _, fs in sorted(os.walk(COQ)):
+        for fn in sorted(fs):
+            if fn.endswith(".v") or fn == "_CoqProject":
+                h.update(fn.encode())
+                h.update(open(os.path.join(dp, fn), "rb").read())
+    tree_key = h.hexdigest()
+    cache_path = os.path.join(wd, "assumptions_cache.json")
+    cache = {}
+    try:
+        c = json.load(open(cache_path))
+        if c.get("key") == tree_key:
+            cache = c.get("out", {})
+    except Exception:
+        cache = {}
+    new_cache = {}
     axioms = set()
     n_reports = 0
     for f in srcs:
         base = os.path.basename(f)[:-2]
+        if base in cache:
+            class _P:       # noqa
+                returncode = 0
+                stdout = cache[base]
+            p = _P()
+            new_cache[base] = p.stdout
+            out = p.stdout
+            n_closed = len(re.findall(r"Closed under the global context", out))
+            blocks = re.split(r"^Axioms:\s*$", out, flags=re.M)
+            for blk in blocks[1:]:
+                for m in re.finditer(r"^([A-Za-z_][\w.']*)\s*$|^([A-Za-z_][\w.']*)\s+:", blk, re.M):
+                    axioms.add(m.group(1) or m.group(2))
+            nr = n_closed + len(blocks) - 1
+            if nr < len(per_file[f]):
+                info.update(ok=False, detail="only %d Print Assumptions reports for %d theorems in %s.v" % (nr, len(per_file[f]), base))
+            n_reports += nr
+            continue
         p = None
         for attempt in range(2):
             # a proof that fails fails deterministically: one retry separates that from a coqc killed by the
@@ -381,6 +416,11 @@ def check_proofs(prop_id, extra_files=(), deep=False):
         if nr < len(per_file[f]):
             info.update(ok=False, detail="only %d Print Assumptions reports for %d theorems in %s.v" % (nr, len(per_file[f]), base))
         n_reports += nr
+        new_cache[base] = out
+    try:
+        json.dump({"key": tree_key, "out": new_cache}, open(cache_path, "w"))
+    except Exception:
+        pass
     info["axioms"] = sorted(axioms)
     unexpected = [a for a in axioms if a not in ALLOWED_AXIOMS]
     if unexpected:
